@@ -109,7 +109,7 @@ instance {α : Type} (w : W α) : Decidable w.Safe := decidable_of_iff _ w.safeB
 @[simp] theorem safe_ite {α : Type} (c : Prop) [Decidable c] (a b : W α) :
     (if c then a else b).Safe ↔ (c → a.Safe) ∧ (¬c → b.Safe) := by
   split <;> simp [*]
-theorem val_ite {α : Type} (c : Prop) [Decidable c] (a b : W α) :
+@[simp] theorem val_ite {α : Type} (c : Prop) [Decidable c] (a b : W α) :
     (if c then a else b).val = if c then a.val else b.val := by
   split <;> rfl
 
